@@ -1,58 +1,80 @@
 --------------------------- MODULE Trace_BinanceL2 ---------------------------
 (* Trace validation (impl -> spec) for C06.  One NDJSON line per step:        *)
-(*  {"a":"Reset",  "world":{rule,chg:{i:[..]},cut:{i:[..]}}, "snap":{i:S}, ..}*)
-(*        a new world and the first connection (real Transformer::init with   *)
-(*        the snapshot events, books replaced by the snapshot events)         *)
-(*  {"a":"Reinit", "snap":{i:S}, ..}   reconnect: new snapshots / transformer *)
+(*  {"a":"Reset",  "world":{rule,expected,chg:{i:[..]},cut:{i:[..]}}, ..}     *)
+(*        a new world; no connection yet                                      *)
+(*  {"a":"Connect","snap":{i:S},"pre":[{i,k}..],"buf":[{i,k}..], ..}          *)
+(*        a connection is established (first one or reconnect): real          *)
+(*        Transformer::init with the snapshot events; in mode `init` the real *)
+(*        ExchangeWsStream::init over a loopback websocket, where `pre` are    *)
+(*        the depth frames the server sent before the first subscription      *)
+(*        confirmation (the validator discards them) and `buf` those between   *)
+(*        the first and the last expected confirmation (buffered)             *)
 (*  {"a":"Deliver","i":i,"k":k,"out":Dropped|Admitted|Error,"err":..,"term":..}*)
 (*        event k of instrument i (payload synthesised from the world) pushed *)
 (*        through the real transformer; outputs applied to the local book     *)
-(*  every line: "post":{book:{i:{bids,asks,seq}}, sq:{i:{processed,lastId}},  *)
+(*  every line: "emit":[{t,i,k}..] what the consumer received during the step, *)
+(*              in order (t = S snapshot / U update / E sequence error);       *)
+(*              "post":{book:{i:{bids,asks,seq}}, sq:{i:{processed,lastId}},   *)
 (*                      conn, notices}  as observed after the step            *)
 (* Each line must be the corresponding BinanceL2 action with exactly the      *)
-(* logged outcome and post-state; otherwise its number is recorded in `bad`   *)
-(* and the rest of the segment (up to the next Reset) is skipped.             *)
+(* logged outcome, emission order (per instrument) and post-state; otherwise  *)
+(* its number is recorded in `bad` and the rest of the segment (up to the     *)
+(* next Reset) is skipped.                                                    *)
 EXTENDS BinanceL2, Json, IOUtils
 
 Rec == ndJsonDeserialize(IOEnv.TRACE)
 
 VARIABLES l, bad, broken
-tvars == <<rule, chg, cut, snap, sq, book, conn, notices, nreinit, ndeliv, admitted, clean, last, l, bad, broken>>
+tvars == <<rule, chg, cut, snap, sq, book, expected, emitted, conn, notices, nreinit, ndeliv, admitted, clean, last, l, bad, broken>>
 
 ProjB(b) == [bids |-> OB!Levels(b.bids, "bids"), asks |-> OB!Levels(b.asks, "asks"), seq |-> b.seq]
 ProjS(s) == [processed |-> s.processed, lastId |-> s.lastId]
 Fn(r)    == [i \in INSTR |-> r[i]]
 
-\* the logged observation equals the (primed) specification state
-PostOK(p) == /\ \A i \in INSTR : p.book[i] = ProjB(book'[i]) /\ p.sq[i] = ProjS(sq'[i])
-             /\ p.conn = conn'
-             /\ p.notices = notices'
+Sel(items, i) == SelectSeq(items, LAMBDA x : x.i = i)
+
+\* the logged observation equals the (primed) specification state; per instrument the consumer
+\* received exactly what the specification emits, in that order
+PostOK(r) ==
+  LET p == r.post IN
+  /\ \A i \in INSTR : p.book[i] = ProjB(book'[i]) /\ p.sq[i] = ProjS(sq'[i])
+  /\ p.conn = conn'
+  /\ p.notices = notices'
+  /\ \A i \in INSTR : emitted'[i] = (IF r.a = "Connect" THEN << >> ELSE emitted[i]) \o Sel(r.emit, i)
+
+NoConn == /\ snap' = [i \in INSTR |-> 0]
+          /\ sq' = [i \in INSTR |-> [processed |-> 0, lastId |-> 0, status |-> "err"]]
+          /\ book' = NoBooks
+          /\ emitted' = [i \in INSTR |-> << >>]
+          /\ conn' = "down" /\ notices' = 0 /\ nreinit' = -1 /\ ndeliv' = 0   \* (the first Connect makes nreinit 0)
+          /\ admitted' = [i \in INSTR |-> << >>]
+          /\ clean' = [i \in INSTR |-> [phase |-> "dirty", next |-> 0]]
+          /\ last' = Obs("World", "", 0, "")
 
 TInit == /\ l = 1 /\ bad = << >> /\ broken = TRUE        \* nothing is judged before the first Reset
          /\ InitWith("Spot", [i \in INSTR |-> <<[side |-> "b", p |-> 1, a |-> 0]>>], [i \in INSTR |-> <<1>>], [i \in INSTR |-> 0])
 
-World(r) == /\ rule' = r.world.rule
-            /\ chg' = Fn(r.world.chg)
-            /\ cut' = Fn(r.world.cut)
-            /\ snap' = Fn(r.snap)
-            /\ sq' = [i \in INSTR |-> Fresh(r.snap[i])]
-            /\ book' = [i \in INSTR |-> TruthOf(r.world.chg[i], r.snap[i])]
-            /\ conn' = "up" /\ notices' = 0 /\ nreinit' = 0 /\ ndeliv' = 0
-            /\ admitted' = [i \in INSTR |-> << >>]
-            /\ clean' = [i \in INSTR |-> CleanStart]
-            /\ last' = Obs("Init", "", 0, "")
-
 WellFormedWorld(w) ==
   /\ w.rule \in {"Spot", "Futures"}
+  /\ w.expected \in {1, 2}
   /\ \A i \in INSTR : /\ Len(w.cut[i]) >= 1 /\ w.cut[i][Len(w.cut[i])] = Len(w.chg[i])
                       /\ \A j \in 1..(Len(w.cut[i]) - 1) : w.cut[i][j] < w.cut[i][j + 1]
                       /\ w.cut[i][1] >= 1
 
-\* a Reset line is accepted iff the first connection shows exactly the snapshots
+\* a new world, not connected yet
 TReset == /\ Rec[l].a = "Reset"
-          /\ World(Rec[l])
-          /\ LET ok == WellFormedWorld(Rec[l].world) /\ PostOK(Rec[l].post)
+          /\ rule' = Rec[l].world.rule /\ expected' = Rec[l].world.expected
+          /\ chg' = Fn(Rec[l].world.chg) /\ cut' = Fn(Rec[l].world.cut)
+          /\ NoConn
+          /\ LET ok == WellFormedWorld(Rec[l].world)
              IN broken' = ~ok /\ bad' = IF ok THEN bad ELSE Append(bad, l)
+
+FramesOf(fs) == [j \in DOMAIN fs |-> Frame(fs[j].i, fs[j].k)]
+
+TConnect == /\ ~broken /\ Rec[l].a = "Connect"
+            /\ ReinitWithBuf(Fn(Rec[l].snap), FramesOf(Rec[l].buf))                         \* the spec's own action
+            /\ PostOK(Rec[l])
+            /\ UNCHANGED <<bad, broken>>
 
 TDeliver == /\ ~broken /\ Rec[l].a = "Deliver"
             /\ LET i == Rec[l].i  k == Rec[l].k IN
@@ -61,13 +83,8 @@ TDeliver == /\ ~broken /\ Rec[l].a = "Deliver"
             /\ last'.out = Rec[l].out
             /\ (Rec[l].out = "Error" => Rec[l].err = "InvalidSequence" /\ Rec[l].term = TRUE)
             /\ (Rec[l].out # "Error" => Rec[l].err = "none")
-            /\ PostOK(Rec[l].post)
+            /\ PostOK(Rec[l])
             /\ UNCHANGED <<bad, broken>>
-
-TReinit == /\ ~broken /\ Rec[l].a = "Reinit"
-           /\ ReinitWith(Fn(Rec[l].snap))                                                  \* the spec's own action
-           /\ PostOK(Rec[l].post)
-           /\ UNCHANGED <<bad, broken>>
 
 \* is line l (not a Reset) a step the specification allows?  (same predicates, unprimed form)
 Allowed(r) ==
@@ -77,35 +94,44 @@ Allowed(r) ==
             /\ r.out = out
             /\ (out = "Error" => r.err = "InvalidSequence" /\ r.term = TRUE /\ r.post.conn = "down" /\ r.post.notices = notices + 1)
             /\ (out # "Error" => r.err = "none" /\ r.post.conn = "up" /\ r.post.notices = notices)
-            /\ \A j \in INSTR \ {r.i} : r.post.book[j] = ProjB(book[j]) /\ r.post.sq[j] = ProjS(sq[j])
+            /\ \A j \in INSTR \ {r.i} : r.post.book[j] = ProjB(book[j]) /\ r.post.sq[j] = ProjS(sq[j]) /\ Sel(r.emit, j) = << >>
+            /\ Sel(r.emit, r.i) = (CASE out = "Admitted" -> <<EItem("U", r.i, r.k)>>
+                                     [] out = "Error"    -> <<EItem("E", r.i, r.k)>>
+                                     [] OTHER            -> << >>)
             /\ IF out = "Admitted"
                THEN /\ r.post.sq[r.i] = [processed |-> sq[r.i].processed + 1, lastId |-> e.u]
                     /\ \E nb \in OB!UpdateResults(book[r.i], e.b, e.a, e.u) : r.post.book[r.i] = ProjB(nb)
                ELSE r.post.sq[r.i] = ProjS(sq[r.i]) /\ r.post.book[r.i] = ProjB(book[r.i])
-    [] r.a = "Reinit" ->
+    [] r.a = "Connect" ->
          /\ conn = "down"
-         /\ \A i \in INSTR : /\ r.snap[i] \in 0..LenM(i)
-                             /\ r.post.book[i] = ProjB(Truth(i, r.snap[i]))
-                             /\ r.post.sq[i] = [processed |-> 0, lastId |-> r.snap[i]]
-         /\ r.post.conn = "up" /\ r.post.notices = notices
+         /\ \A i \in INSTR : r.snap[i] \in 0..LenM(i)
+         /\ ValidBuffer(expected, FramesOf(r.buf))
+         /\ LET c == Connected(Fn(r.snap), FramesOf(r.buf), book) IN
+            /\ \A i \in INSTR : /\ r.post.book[i] = ProjB(c.book[i])
+                                /\ r.post.sq[i] = ProjS(c.sq[i])
+                                /\ Sel(r.emit, i) = c.emitted[i]
+            /\ r.post.conn = c.conn /\ r.post.notices = notices + c.notice
     [] OTHER -> FALSE
 
 TBad == /\ ~broken /\ Rec[l].a # "Reset"
         /\ ~Allowed(Rec[l])
         /\ bad' = Append(bad, l) /\ broken' = TRUE
-        /\ UNCHANGED <<rule, chg, cut, snap, sq, book, conn, notices, nreinit, ndeliv, admitted, clean, last>>
+        /\ UNCHANGED <<rule, chg, cut, snap, sq, book, expected, emitted, conn, notices, nreinit, ndeliv, admitted, clean, last>>
 
 TSkip == /\ broken /\ Rec[l].a # "Reset"
-         /\ UNCHANGED <<rule, chg, cut, snap, sq, book, conn, notices, nreinit, ndeliv, admitted, clean, last, bad, broken>>
+         /\ UNCHANGED <<rule, chg, cut, snap, sq, book, expected, emitted, conn, notices, nreinit, ndeliv, admitted, clean, last, bad, broken>>
 
 TNext == /\ l <= Len(Rec)
          /\ l' = l + 1
-         /\ (TReset \/ TDeliver \/ TReinit \/ TBad \/ TSkip)
+         /\ (TReset \/ TConnect \/ TDeliver \/ TBad \/ TSkip)
 
 TSpec == TInit /\ [][TNext]_tvars
 
 \* the C06 invariants and action formulas on every accepted step of the implementation
-TInv == broken \/ (TypeOK /\ Chain /\ BookValid /\ BookNeverWrong /\ BookIsMap /\ Told /\ CleanNeverErrors)
+TInv == broken \/ nreinit = -1 \/ (TypeOK /\ Chain /\ BookValid /\ BookNeverWrong /\ BookIsMap /\ Told /\ CleanNeverErrors
+                                  /\ EmissionOrder)
+\* (ConsumerFold - the book is the fold of the emissions - is a theorem of the specification checked in
+\*  the MC_ runs; re-folding long chains at every line of a trace is quadratic and adds nothing here)
 TProps == [][broken \/ broken' \/ last'.a # "Deliver" \/ StepProps]_tvars
 
 Done == l = Len(Rec) + 1 => PrintT(<<"TRACE_END", ToJson(bad)>>)
